@@ -315,6 +315,12 @@ func (e *Engine) unknownResult(st *State, rt types.Type) Val {
 func (e *Engine) builtin(fr *Frame, st *State, b *ssa.Builtin, args []Val, argVals []ssa.Value, rt types.Type, pos token.Pos) (Val, bool) {
 	a := e.ar
 	intT := types.Typ[types.Int]
+	if b.Name() == "copy" || b.Name() == "append" {
+		// ghost assertions may be attached to these builtins (assert_at call copy#n : ...)
+		if fr.top && e.contract != nil && len(e.contract.Asserts) > 0 && e.quiet == 0 {
+			e.ghostAsserts(fr, st, b.Name(), e.ordinal("call "+b.Name()), pos, args)
+		}
+	}
 	switch b.Name() {
 	case "ssa:deferstack":
 		return Scalar{e.ridLit(0), rt}, true
